@@ -394,6 +394,16 @@ def sites_and_facts(F, body, extra_facts=None):
                         facts.append((("edge", bb, te), tf[0], txt + " true"))
                     if tf[1] is not None and fe is not None:
                         facts.append((("edge", bb, fe), tf[1], txt + " false"))
+            elif re.match(r"^u(8|16|32|64|size)$", t.get("dty", "")) and not (d and d[2] == "assign" and d[3]["k"] == "discr"):
+                # `match x { 0 => .., n => .. }` on an unsigned integer: x == v on the edge of value v, x >= 1 on the other edge once 0 is taken
+                xv = L.operand(env_t, t["d"])
+                if xv is not TOP:
+                    for v, tgt in t["targets"]:
+                        if sum(1 for _, x2 in t["targets"] if x2 == tgt) == 1 and tgt != t["otherwise"]:
+                            facts.append((("edge", bb, tgt), aff_add(xv, aff_const(v), -1), "switch value == %d" % v))
+                            facts.append((("edge", bb, tgt), aff_add(aff_const(v), xv, -1), "switch value == %d" % v))
+                    if any(v == 0 for v, _ in t["targets"]) and all(tgt != t["otherwise"] for _, tgt in t["targets"]):
+                        facts.append((("edge", bb, t["otherwise"]), aff_add(xv, aff_const(1), -1), "switch value != 0"))
             elif d and d[2] == "call" and strip_generics(callee_def(d[3])).endswith("is_empty") and len(d[3]["args"]) == 1:
                 ln = L.len_sym(d[3]["args"][0], d[0])
                 f0 = [x for v, x in t["targets"] if v == 0]
